@@ -66,7 +66,8 @@ class TcpConn(object):
         self._last_arrival = 0
         self.server_closed = False
         # client side local state
-        self.local_shutdown = False
+        self.local_shutdown = False      # read side shut down locally
+        self.local_wr_shutdown = False   # write side shut down locally
         self.client_released = False
         self.eof_reads = 0         # reads/selects answered after EOF
         self.sends_after_peer_close = 0
@@ -246,7 +247,7 @@ class SimSocket(object):
         conn = self.conn
         if conn is None:
             raise BrokenPipeError(errno.EPIPE, 'Broken pipe')
-        if conn.local_shutdown:
+        if conn.local_shutdown or conn.local_wr_shutdown:
             raise BrokenPipeError(errno.EPIPE, 'Broken pipe')
         if conn.s2c_rst:
             raise ConnectionResetError(errno.ECONNRESET,
@@ -278,8 +279,22 @@ class SimSocket(object):
             raise OSError(errno.ENOTCONN,
                           'Transport endpoint is not connected')
         sim.log('shutdown', conn.index)
+        if how == 1:
+            # SHUT_WR: FIN goes out, later sends fail, but a reader blocked
+            # in recv()/select() on this socket is NOT woken (as on Linux)
+            if not conn.local_wr_shutdown:
+                conn.local_wr_shutdown = True
+                conn.client_fin()
+                sim.dirty = True
+            return
+        if how == 0:
+            # SHUT_RD: readers see EOF, nothing is sent
+            conn.local_shutdown = True
+            sim.dirty = True
+            return
         if not conn.local_shutdown:
             conn.local_shutdown = True
+            conn.local_wr_shutdown = True
             conn.client_fin()
             sim.dirty = True
 
